@@ -10,6 +10,15 @@ NOTE = ("Trusted: Coq 8.16.1 kernel + vm_compute; no axioms (Print Assumptions c
         "its ExtrOcamlBasic extraction vs the implementation built from the working tree); Rust harness, python generators.")
 
 CHECKS = {
+    "C07": dict(
+        category="other",
+        text="Model LexUpdate.lex_update transcribes lexer::update (every panic site explicit). Proved so far: the bounded instance "
+             "C07_small_scope (kernel VM sweep over all texts <= 2 x all splits x insertions <= 1); the unbounded theorem "
+             "C07_full_statement (update = lex of the new text with a truthful window, for all texts and changes) is being proved "
+             "in Proofs/LexUpdateProofs.v. The model is tied to the code by exhaustive small-scope and random differential runs; "
+             "an implementation oracle (update == lex, window truthfulness) runs exhaustively over 11.6M (quick) / 280M (thorough) changes.",
+        design_ref="DESIGN.md section 5, C07",
+        technique="Coq model of lexer::update + kernel-computed bounded theorem + correspondence; unbounded proof in progress"),
     "C06": dict(
         category="proof",
         text="Theorems over all Unicode texts (Props/C06.v): the lexer model is total, its output tiles the text "
